@@ -10,6 +10,7 @@
 //!   mover <budget>                      -> <buf_size> <buf_count>
 //!   xc <budget> <file> <spans>          -> ok saved=N len=N fp=H [data=HEX] | err len=N fp=H [data=HEX]
 //!   cip <budget> <file> <src> <dst> <n> -> ok moved=N len=N fp=H [data=HEX] | err moved=N len=N fp=H [data=HEX]
+//!   mv <budget> <srcfile> <so> <dstfile> <do> <n> -> ok moved=N len=N fp=H [data=HEX] | err … (dest file)
 //!   plan <thr-f64-bits-hex> <segsize> <segs>  -> <moves> total=N srcs=.. tgts=..
 //!   arch <presize> <w1,w2,..>           -> compacted=N reclaimed=N len=N
 //! <spans> = `-` | off:len,off:len,…     <segs> = `-` | F:used,T:used,…
@@ -343,6 +344,55 @@ fn run_line(s: &mut Session, req: &str, toks: &[&str]) -> Option<String> {
                 Err(_) => Some("panic".into()),
             }
         }
+        ["mv", b, sf, so, df, dof, n] => {
+            let budget: usize = b.parse().ok()?;
+            if budget > (1 << 28) {
+                return None;
+            }
+            let src_bytes = parse_file(sf)?;
+            let dst_bytes = parse_file(df)?;
+            let (so, dof, n): (u64, u64, u64) = (so.parse().ok()?, dof.parse().ok()?, n.parse().ok()?);
+            if dof > (1 << 22) || n > (1 << 26) || so > (1 << 40) {
+                return None;
+            }
+            let dir = tempfile::tempdir().expect("tempdir");
+            let (sp, dp) = (dir.path().join("src"), dir.path().join("dst"));
+            std::fs::write(&sp, &src_bytes).expect("write src");
+            std::fs::write(&dp, &dst_bytes).expect("write dst");
+            let mut sfile = std::fs::File::open(&sp).expect("open src");
+            let mut dfile = OpenOptions::new().write(true).open(&dp).expect("open dst");
+            let mut mover = CompactionFileMover::new(budget);
+            let r = catch(AssertUnwindSafe(|| mover.move_data(&mut sfile, so, &mut dfile, dof, n).is_ok()));
+            drop(sfile);
+            drop(dfile);
+            let after = std::fs::read(&dp).expect("read dst");
+            let src_after = std::fs::read(&sp).expect("read src");
+            match r {
+                Ok(ok) => {
+                    if so as u128 + n as u128 <= src_bytes.len() as u128 {
+                        // O (chunked_move_data_safe): one write of the whole range
+                        let (so, dof, n) = (so as usize, dof as usize, n as usize);
+                        let mut want = dst_bytes.clone();
+                        if n > 0 {
+                            if want.len() < dof + n {
+                                want.resize(dof + n, 0);
+                            }
+                            want[dof..dof + n].copy_from_slice(&src_bytes[so..so + n]);
+                        }
+                        if !ok || after != want || src_after != src_bytes || mover.bytes_moved() != n as u64 {
+                            let sig = if n > 131072 { "move-data-gt-buffer" } else { "move-data" };
+                            s.oracle_fail(sig, "move_data did not place the source range at dest_offset (or touched the source / miscounted)", &[req.to_string()]);
+                        }
+                        s.case(if n > 0 { Some(req) } else { None });
+                    } else {
+                        s.case(None);
+                    }
+                    s.tally(if ok { "mv-ok" } else { "mv-err" });
+                    Some(format!("{} moved={} {}", if ok { "ok" } else { "err" }, mover.bytes_moved(), file_obs(&after)))
+                }
+                Err(_) => Some("panic".into()),
+            }
+        }
         ["plan", thr, size, sg] => {
             let bits = u64::from_str_radix(thr, 16).ok()?;
             let thr = f64::from_bits(bits);
@@ -372,6 +422,11 @@ fn run_line(s: &mut Session, req: &str, toks: &[&str]) -> Option<String> {
                     let dests: std::collections::BTreeSet<u16> = moves.iter().map(|m| m.2).collect();
                     if dests.len() > 1 {
                         s.tally("plan-multi-dest");
+                    }
+                    // not claimed by C18, reported only: a segment that is emptied by one move
+                    // and filled by a later one
+                    if moves.iter().any(|m| dests.contains(&m.0)) {
+                        s.tally("plan-segment-both-source-and-target");
                     }
                     s.case(if moves.is_empty() { None } else { Some(req) });
                     let ms = if moves.is_empty() {
@@ -493,6 +548,20 @@ fn gen_small(s: &mut Session, rng: &mut Rng, samples: usize) {
             emit(s, format!("val {}", spans_str(&[*a, *b])));
         }
     }
+    // a 5-byte file, so that the exhaustive part also covers "exactly 0 / 1 / 2 bytes saved"
+    let f5 = "hex:e0e1e2e3e4";
+    let mut all5 = vec![];
+    for o in 0..=5u64 {
+        for l in 0..=3u64 {
+            all5.push((o, l));
+        }
+    }
+    for a in &all5 {
+        emit(s, format!("xc 0 {f5} {}", spans_str(&[*a])));
+        for b in &all5 {
+            emit(s, format!("xc 0 {f5} {}", spans_str(&[*a, *b])));
+        }
+    }
     for _ in 0..samples {
         // mostly disjoint sets built left to right, then shuffled; sometimes perturbed
         let n = rng.range(3, 5) as usize;
@@ -583,6 +652,29 @@ fn gen_cip(s: &mut Session, rng: &mut Rng, small: usize, big: usize) {
     }
 }
 
+fn gen_mv(s: &mut Session, rng: &mut Rng, small: usize, big: usize) {
+    for _ in 0..small {
+        let sl = rng.range(0, 24);
+        let dl = rng.range(0, 24);
+        let sf: Vec<u8> = (0..sl).map(|i| 0x40 + i as u8).collect();
+        let df: Vec<u8> = (0..dl).map(|i| 0xc0 + i as u8).collect();
+        let so = rng.range(0, sl + 1);
+        let n = if rng.chance(4, 5) { rng.range(0, sl.saturating_sub(so)) } else { rng.range(0, sl + 2) };
+        let dof = rng.range(0, dl + 3);
+        emit(s, format!("mv {} hex:{} {so} hex:{} {dof} {n}", rng.pick(BUDGETS), hex(&sf), hex(&df)));
+    }
+    let ns: &[u64] = &[131071, 131072, 131073, 262144, 262145, 393217, 500000];
+    for _ in 0..big {
+        let n = *rng.pick(ns);
+        let so = *rng.pick(&[0u64, 1, 4097]);
+        let short = if rng.chance(1, 6) { rng.range(1, 200000) } else { 0 };
+        let sl = (so + n + *rng.pick(&[0u64, 3])).saturating_sub(short);
+        let dl = *rng.pick(&[0u64, 10, 131072, 600000]);
+        let dof = *rng.pick(&[0u64, 5, 131071, 131080]);
+        emit(s, format!("mv {} gen:{sl}:{} {so} gen:{dl}:{} {dof} {n}", rng.pick(BUDGETS), rng.below(256), rng.below(256)));
+    }
+}
+
 fn segs_str(v: &[(bool, u64)]) -> String {
     if v.is_empty() {
         "-".into()
@@ -645,7 +737,9 @@ fn gen_plan_random(s: &mut Session, rng: &mut Rng, cases: usize) {
                 7 => rng.range(1, 16),
                 _ => rng.range(0, size.min(1 << 62).max(1)),
             };
-            v.push((frozen, u));
+            // write positions stay below 2^62: `dest_used + source_used` is unchecked u64
+            // arithmetic in the planner (assumption listed in lib/cfg/C18.py)
+            v.push((frozen, u.min(1 << 62)));
         }
         emit(s, format!("plan {:016x} {size} {}", thr.to_bits(), segs_str(&v)));
     }
@@ -673,7 +767,7 @@ fn main() {
     let args = Args::parse();
     let mut s = Session::new(&args.out);
     s.rule = "seeded + exhaustive request lines; non-trivial = xc that changed the file or was refused, val with >= 2 spans, \
-              cip with dst<=src, src!=dst, n>0 inside the file, plan with >= 1 move, arch with >= 1 write, mover sizing; \
+              cip with dst<=src, src!=dst, n>0 inside the file, mv with n>0 inside the source, plan with >= 1 move, arch with >= 1 write, mover sizing; \
               distinct = canonical request text"
         .into();
     if let Some(p) = &args.replay {
@@ -695,8 +789,9 @@ fn main() {
     gen_small(&mut s, &mut rng, if th { 60000 } else { 4000 });
     gen_big(&mut s, &mut rng, if th { 1500 } else { 70 }, if th { 1 << 20 } else { 900_000 });
     gen_cip(&mut s, &mut rng, if th { 20000 } else { 1500 }, if th { 600 } else { 40 });
+    gen_mv(&mut s, &mut rng, if th { 10000 } else { 1000 }, if th { 400 } else { 30 });
     gen_plan_exhaustive(&mut s, if th { 5 } else { 4 });
     gen_plan_random(&mut s, &mut rng, if th { 200_000 } else { 8000 });
-    gen_arch(&mut s, &mut rng, if th { 300 } else { 12 });
+    gen_arch(&mut s, &mut rng, if th { 100 } else { 10 });
     s.finish();
 }
